@@ -102,6 +102,34 @@ def make_scenarios(ctx, count, flen):
     return scns
 
 
+def make_churn(ctx, count):
+    """the mapper's session while the observation record is filled to its bound, beyond it, and drained in parts (G.obs_churn):
+    the mapper's Discovers in between are answered, everybody else's are not"""
+    scns = []
+    for i in range(count):
+        rng = G.rng_for(ctx.seed, "C05churn", i)
+        cfg = G.rand_cfg(rng, mtu=rng.choice([1500, 1500, 9000]))
+        net = G.Net(rng, cfg["mac"], nmappers=3, nstrangers=3)
+        m = rng.randrange(3)
+        frames, _, st = G.obs_churn(rng, net, m, cfg["mtu"], mode=["flood", "boundaries", "flood", "sawtooth"][i % 4],
+                                    budget=ctx.n(2600, 4000), discover_every=0.15, use_mtu=False, bridged=rng.random() < 0.2)
+        out = []
+        for k, fr in enumerate(frames):
+            out.append(fr)
+            if k > 0 and rng.random() < 0.004:
+                other = net.mappers[(m + rng.randint(1, 2)) % 3] if rng.random() < 0.6 else G.rand_mac(rng)
+                out.append(W.discover(other, rng.getrandbits(16), rng.getrandbits(16), [], tos=rng.choice([0, 0, 1])))
+        # whatever the record went through, the session is still the mapper's
+        out.append(W.discover(G.rand_mac(rng), 1, rng.getrandbits(16), [], tos=0))
+        out.append(G.f_discover(rng, net, m=m, tos=0))
+        s = H.Scenario("ch%d" % i, meta=dict(frames=out, own=cfg["mac"], mtu=cfg["mtu"], rxseed=cfg["rxseed"], churn=st))
+        s.iface(0, **H.iface_kw(cfg)).glob(**G.global_kw(G.rand_global(rng, icon_size=0)))
+        s.add("OPT sleep=0 txhex=1")
+        s.frames(0, out)
+        scns.append(s)
+    return scns
+
+
 def monitor(scn, sobj, rep, sf, ck):
     frames = sobj.meta["frames"]
     from ..model import RxBuf
@@ -141,6 +169,10 @@ def monitor(scn, sobj, rep, sf, ck):
                           "last frames:\n  %s" % (scn.sid, idx + 1, before, active_before.hex() if active_before else None,
                                                   fr[24:30].hex(), tos, exp, got, "\n  ".join(recent)),
                           replay=sobj.text())
+    if sobj.meta.get("churn") and judged:
+        rep.count("churn_histories")
+        if 1024 in sobj.meta["churn"]["levels"]:
+            rep.count("churn_histories_reaching_the_observation_bound")
     if judged >= 3 and len(kinds) >= 2:
         rep.nontrivial((scn.sid, tuple(sorted(kinds)), judged))
     rep.count("discovers_judged", judged)
@@ -162,6 +194,10 @@ def run(ctx):
     binary = H.build(ctx.work, "asan")
     scns = make_scenarios(ctx, ctx.n(1500, 30000), 60)
     run_monitored(ctx, binary, scns, monitor, tag="hist")
+    plain = H.build(ctx.work, "plain")
+    churn = make_churn(ctx, ctx.n(24, 400))
+    run_monitored(ctx, binary, churn, monitor, tag="churn")
+    run_monitored(ctx, plain, churn, monitor, tag="churn-plain")     # a stray write inside the state record is invisible to red zones
     # the same histories on size-optimised builds of both compilers and with plain char unsigned: behaviour must not depend
     # on the optimisation level, the compiler or the ABI's choice for char
     os_gcc, os_clang, uchar = H.build_many(ctx.work, [dict(flavour="plain-os"), dict(flavour="plain-clang-os"), dict(flavour="asan-uchar")])
@@ -172,6 +208,7 @@ def run(ctx):
     rep.need("discovers_judged", rep.counters.get("discovers_judged", 0), 1000)
     for cls in ("idle/hello", "active-same/hello", "active-other/silence", "opened-by-command/hello"):
         rep.need("class:" + cls, rep.counters.get("discover_judged:" + cls, 0), 50)
+    rep.need("churn_histories_reaching_the_observation_bound", rep.counters.get("churn_histories_reaching_the_observation_bound", 0), 10)
     rep.need("foreign_service_frames", rep.counters.get("foreign_service_frames", 0), 1000)
     rep.need("opened-by-command-bridged", rep.counters.get("discover_judged:opened-by-command-bridged", 0), 20)
     rep.need("clock_gaps_between_frames", rep.counters.get("clock_gaps_between_frames", 0), 200)
